@@ -26,6 +26,21 @@ impl Finding {
     }
 }
 
+/// How often each content clause actually demanded something (shows the oracle is not vacuous).
+pub const DEMANDS: [&str; 7] = [
+    "diagnostics_nonempty_compared",
+    "hover_sets_demanded",
+    "definition_same_document_checked",
+    "definition_parser_rs_checked",
+    "definition_required_present",
+    "references_nonempty_cross_checked",
+    "formatting_checked",
+];
+pub static DEMAND_COUNT: [std::sync::atomic::AtomicU64; 7] = [const { std::sync::atomic::AtomicU64::new(0) }; 7];
+fn demanded(i: usize) {
+    DEMAND_COUNT[i].fetch_add(1, std::sync::atomic::Ordering::Relaxed);
+}
+
 pub struct FrontEnd {
     pub cst: &'static Cst<'static>,
     pub sema: SemanticData<'static>,
@@ -263,6 +278,9 @@ pub fn check_diagnostics(ti: &TextInfo, uri: &Url, out: &Outcome) -> Vec<Finding
  step: None,
 }),
         Some(exp) => {
+            if !exp.is_empty() {
+                demanded(0);
+            }
             if *got != exp {
                 f.push(Finding {
                     key: format!("diag-mismatch:{}", ti.id),
@@ -315,6 +333,7 @@ pub fn check_reply(cx: &Ctx<'_>, req: &Req, out: &Outcome) -> Vec<Finding> {
     let at = |l: u32, c: u32| format!("{l}:{c}");
     match (req, reply) {
         (Req::Formatting, Reply::Formatting(edits)) => {
+            demanded(6);
             let (el, ec) = ti.lines.end_position(ti.text);
             let whole = Range::new(Position::new(0, 0), Position::new(el, ec));
             let ok = match (edits, &fe.formatted) {
@@ -353,6 +372,7 @@ pub fn check_reply(cx: &Ctx<'_>, req: &Req, out: &Outcome) -> Vec<Finding> {
                 block.push_str(&format!("\n\n**Recovery:** {}", fmt_set(fe.sema.recovery_sets.get(&target))));
             }
             let exp_range = ti.range(&cst.span(node));
+            demanded(1);
             let ok = match h {
                 Some(Hover { contents: HoverContents::Markup(m), range }) => {
                     m.kind == MarkupKind::Markdown
@@ -384,19 +404,26 @@ pub fn check_reply(cx: &Ctx<'_>, req: &Req, out: &Outcome) -> Vec<Finding> {
             let mut bad = |key: &str, detail: String| {
                 f.push(Finding { key: format!("{key}:{}", ti.id), detail: format!("definition at {}: {detail}", at(*l, *c)), step: None })
             };
+            // a name or symbol used inside the body of a top-level rule, and declared in the text,
+            // must resolve
+            let in_body = path.len() >= 2
+                && RuleDecl::cast(cst, path[0]).is_some()
+                && path[1..].iter().all(|n| Regex::cast(cst, *n).is_some())
+                && (Name::cast(cst, *path.last().unwrap()).is_some() || Symbol::cast(cst, *path.last().unwrap()).is_some());
+            let required = match (in_body, &tok) {
+                (true, Some((Token::Id | Token::Str, span))) => {
+                    let name = &ti.text[span.clone()];
+                    decls.iter().any(|(n, _)| n == name).then_some(name)
+                }
+                _ => None,
+            };
+            if required.is_some() {
+                demanded(4);
+            }
             match d {
                 None => {
-                    // a name or symbol used inside the body of a top-level rule, and declared in the
-                    // text, must resolve
-                    let in_body = path.len() >= 2
-                        && RuleDecl::cast(cst, path[0]).is_some()
-                        && path[1..].iter().all(|n| Regex::cast(cst, *n).is_some())
-                        && (Name::cast(cst, *path.last().unwrap()).is_some() || Symbol::cast(cst, *path.last().unwrap()).is_some());
-                    if let (true, Some((Token::Id | Token::Str, span))) = (in_body, &tok) {
-                        let name = &ti.text[span.clone()];
-                        if decls.iter().any(|(n, _)| n == name) {
-                            bad("definition-missing", format!("`{name}` is declared in the text but no definition is returned"));
-                        }
+                    if let Some(name) = required {
+                        bad("definition-missing", format!("`{name}` is declared in the text but no definition is returned"));
                     }
                 }
                 Some(GotoDefinitionResponse::Scalar(loc)) if loc.uri == *cx.uri => {
@@ -411,6 +438,7 @@ pub fn check_reply(cx: &Ctx<'_>, req: &Req, out: &Outcome) -> Vec<Finding> {
                         bad("defref-disagree", format!("`{name}` resolves to {:?}, which is no declaration of that name ({candidates:?})", loc.range));
                         return f;
                     }
+                    demanded(2);
                     let (ql, qc) = (loc.range.start.line, loc.range.start.character);
                     let with = refs_of((cx.lookup)(&Req::References(ql, qc, true)));
                     let without = refs_of((cx.lookup)(&Req::References(ql, qc, false)));
@@ -442,6 +470,7 @@ pub fn check_reply(cx: &Ctx<'_>, req: &Req, out: &Outcome) -> Vec<Finding> {
                         let pl = Lines::new(cx.parser_rs);
                         pl.position(cx.parser_rs, o)
                     });
+                    demanded(3);
                     let got = (loc.range.start.line, loc.range.start.character);
                     if exp != Some(got) || loc.range.start != loc.range.end {
                         bad("defref-disagree", format!("{kind} {number} of rule {rule:?} is at {exp:?} in parser.rs, got {:?}", loc.range));
@@ -463,6 +492,9 @@ pub fn check_reply(cx: &Ctx<'_>, req: &Req, out: &Outcome) -> Vec<Finding> {
             };
             if with.is_empty() && without.is_empty() {
                 return f;
+            }
+            if !without.is_empty() {
+                demanded(5);
             }
             let decl = match multiset_minus(with, without) {
                 Some(rest) if rest.len() == 1 => rest[0].clone(),
